@@ -23,8 +23,8 @@ META = dict(
                "listings are checked relationally, not predicted, except levels=1, ranges (as sets) and the per-file "
                "mainline. File contents: a touching revision writes content unique to it; a non-touching revision takes "
                "the per-file head of its parents and must touch when there are several (no reverts, no identical "
-               "changes on two sides). Histories have <= 6 revisions, so the log's internal batching (9, 13, ...) is "
-               "never split. Trusted: BranchBuilder/commit, vcsgraph, TLC, the JSON bridge.",
+               "changes on two sides), and the file is introduced once. Exhaustive histories have <= 6 revisions; "
+               "the thorough tier adds seeded random ones with 7-9. Trusted: BranchBuilder/commit, vcsgraph, TLC, the JSON bridge.",
 )
 
 
@@ -147,7 +147,9 @@ def run(ctx):
                 ("5 revisions", hc.gen_cfg(5, 5, 2, 0, 2, off), L, True, False),
                 ("5 revisions, ghost", hc.gen_cfg(5, 5, 2, 1, 12, off), L, True, False),
                 ("<=4 revisions, 3 parents, ghost", hc.gen_cfg(3, 4, 3, 1, 3, off), L, True, False),
-                ("6 revisions", hc.gen_cfg(6, 6, 2, 0, 60, off), L, True, False)]
+                ("6 revisions", hc.gen_cfg(6, 6, 2, 0, 60, off), L, True, False),
+                ("30 seeded random graphs, 7-9 revisions, <= 3 parents, ghost", hc.gen_cfg(7, 9, 3, 1), L, True, False,
+                 hc.random_graphs(ctx.rng, 30, 7, 9))]
         remote_every, pack_every, nfiles = 25, 6, 8
     cases = hc.generate(ctx, "HistoryC25Gen", plan)
     groups = hc.group_by_graph(cases)
@@ -207,4 +209,4 @@ def run(ctx):
              "Non-trivial = request on a branch that has merged revisions."
              % (nfiles, "; ".join("%s %s" % (p[0], p[1]) for p in plan), remote_every, pack_every))
     ctx.assume("file contents follow the model of History!VerOf (unique content per touching revision, natural merges)")
-    ctx.assume("<= 6 revisions: the log generator's batches are never split")
+    ctx.assume("a file is introduced by one revision (file ids are minted by one add)")
